@@ -60,8 +60,8 @@ META = {
          'state, parents, observed data; removal takes private constants and observed data; no other live model changes = copy '
          'independence; copy and reloaded model equal their source) evaluated in Coq on the implementation dumps, and seeded generate '
          'on every live model at the end compared with the pipeline model of C03.',
-    note=COMMON_NOTE + 'Partial: acyclicity after become (under the guard "replacement is not a descendant") and "become keeps the '
-         'children" are checked on the implementation dumps on every run but not yet proved for the model; pickle of callables '
+    note=COMMON_NOTE + 'Partial: "become keeps the '
+         'children" is checked on the implementation dumps on every run but not proved for the model (acyclicity after become under the guard is proved: C14_become_acyclic); pickle of callables '
          '(save/load) is runtime behaviour, sampled. Known finding: become onto a descendant leaves a cycle (KNOWN_FINDINGS.txt); the '
          'deprecated explicit add_edge producing duplicate positional indices or cycles is outside the property statement and skipped.'),
  'C08': dict(
